@@ -328,6 +328,209 @@ impl<T> Deque<T> {
     }
 }
 
+//
+// Verification hooks: a structural walker and a safe facade over `Deque`.
+//
+#[cfg(mini_moka_verif)]
+impl<T> Deque<T> {
+    /// Walks the list from the head and returns the nodes in order together with
+    /// the violated link invariants (empty when the list is well-formed).
+    pub(crate) fn verif_walk(&self) -> (Vec<NonNull<DeqNode<T>>>, Vec<String>) {
+        let mut nodes = Vec::with_capacity(self.len);
+        let mut errors = Vec::new();
+        let mut prev: Option<NonNull<DeqNode<T>>> = None;
+        let mut cur = self.head;
+        while let Some(node) = cur {
+            if nodes.len() > self.len {
+                errors.push(format!(
+                    "more than len = {} nodes reachable from head (cycle or stale len)",
+                    self.len
+                ));
+                break;
+            }
+            let n = unsafe { node.as_ref() };
+            if n.prev != prev {
+                errors.push(format!(
+                    "node #{} at {:p}: prev = {:?}, expected {:?}",
+                    nodes.len(),
+                    node.as_ptr(),
+                    n.prev,
+                    prev
+                ));
+            }
+            nodes.push(node);
+            prev = Some(node);
+            cur = n.next;
+        }
+        if errors.is_empty() {
+            if self.tail != prev {
+                errors.push(format!(
+                    "tail = {:?}, but the last reachable node is {:?}",
+                    self.tail, prev
+                ));
+            }
+            if nodes.len() != self.len {
+                errors.push(format!(
+                    "len = {}, but {} nodes are reachable",
+                    self.len,
+                    nodes.len()
+                ));
+            }
+            if let Some(DeqCursor::Node(c)) = self.cursor {
+                if !nodes.contains(&c) {
+                    errors.push(format!("cursor {:p} is not a node of the list", c.as_ptr()));
+                }
+            }
+        }
+        (nodes, errors)
+    }
+
+    pub(crate) fn verif_len(&self) -> usize {
+        self.len
+    }
+}
+
+/// A safe facade over the intrusive `Deque`, for driving the real list code from
+/// a harness. Nodes are addressed by handles; a handle stays valid until its node
+/// has been popped or unlinked.
+#[cfg(mini_moka_verif)]
+pub struct VerifDeque<T> {
+    deque: Deque<T>,
+    handles: Vec<Option<NonNull<DeqNode<T>>>>,
+}
+
+#[cfg(mini_moka_verif)]
+impl<T> Default for VerifDeque<T> {
+    fn default() -> Self {
+        Self::new()
+    }
+}
+
+#[cfg(mini_moka_verif)]
+impl<T> VerifDeque<T> {
+    pub fn new() -> Self {
+        Self {
+            deque: Deque::new(CacheRegion::MainProbation),
+            handles: Vec::new(),
+        }
+    }
+
+    fn node(&self, handle: usize) -> Option<NonNull<DeqNode<T>>> {
+        self.handles.get(handle).copied().flatten()
+    }
+
+    fn handle_of(&self, node: NonNull<DeqNode<T>>) -> Option<usize> {
+        self.handles.iter().position(|h| *h == Some(node))
+    }
+
+    pub fn len(&self) -> usize {
+        self.deque.len
+    }
+
+    pub fn is_empty(&self) -> bool {
+        self.deque.len == 0
+    }
+
+    pub fn push_back(&mut self, element: T) -> usize {
+        let node = self.deque.push_back(Box::new(DeqNode::new(element)));
+        self.handles.push(Some(node));
+        self.handles.len() - 1
+    }
+
+    /// Returns the handle and the element of the popped node.
+    pub fn pop_front(&mut self) -> Option<(usize, T)> {
+        let head = self.deque.peek_front_ptr();
+        let node = self.deque.pop_front()?;
+        let handle = head.and_then(|h| self.handle_of(h)).expect("unknown head");
+        self.handles[handle] = None;
+        Some((handle, node.element))
+    }
+
+    pub fn peek_front(&self) -> Option<(usize, &T)> {
+        let head = self.deque.peek_front_ptr()?;
+        let handle = self.handle_of(head).expect("unknown head");
+        self.deque.peek_front().map(|n| (handle, &n.element))
+    }
+
+    /// `false` when the handle is no longer valid.
+    pub fn is_live(&self, handle: usize) -> bool {
+        self.node(handle).is_some()
+    }
+
+    pub fn contains(&self, handle: usize) -> bool {
+        match self.node(handle) {
+            Some(node) => self.deque.contains(unsafe { node.as_ref() }),
+            None => false,
+        }
+    }
+
+    pub fn move_to_back(&mut self, handle: usize) -> bool {
+        match self.node(handle) {
+            Some(node) => {
+                unsafe { self.deque.move_to_back(node) };
+                true
+            }
+            None => false,
+        }
+    }
+
+    pub fn move_front_to_back(&mut self) {
+        self.deque.move_front_to_back();
+    }
+
+    pub fn unlink_and_drop(&mut self, handle: usize) -> bool {
+        match self.node(handle) {
+            Some(node) => {
+                unsafe { self.deque.unlink_and_drop(node) };
+                self.handles[handle] = None;
+                true
+            }
+            None => false,
+        }
+    }
+
+    /// Unlinks the node without dropping it and returns its element.
+    pub fn unlink(&mut self, handle: usize) -> Option<T> {
+        let node = self.node(handle)?;
+        let boxed = unsafe {
+            self.deque.unlink(node);
+            Box::from_raw(node.as_ptr())
+        };
+        self.handles[handle] = None;
+        Some(boxed.element)
+    }
+
+    /// The successor of the node, as `DeqNode::next_node_ptr` reports it.
+    pub fn next_of(&self, handle: usize) -> Option<usize> {
+        let node = self.node(handle)?;
+        DeqNode::next_node_ptr(node).map(|n| self.handle_of(n).expect("unknown next node"))
+    }
+
+    /// One step of the cursor based iteration (`impl Iterator for &mut Deque`).
+    pub fn cursor_next(&mut self) -> Option<&T> {
+        let mut it = &mut self.deque;
+        Iterator::next(&mut it)
+    }
+
+    pub fn reset_cursor(&mut self) {
+        self.deque.cursor = None;
+    }
+
+    /// Handles of the nodes from front to back, and the walker's findings.
+    pub fn walk(&self) -> (Vec<usize>, Vec<String>) {
+        let (nodes, errors) = self.deque.verif_walk();
+        let handles = nodes
+            .into_iter()
+            .map(|n| self.handle_of(n).unwrap_or(usize::MAX))
+            .collect();
+        (handles, errors)
+    }
+
+    pub fn element(&self, handle: usize) -> Option<&T> {
+        self.node(handle).map(|n| &unsafe { &*n.as_ptr() }.element)
+    }
+}
+
 #[cfg(test)]
 mod tests {
     use super::{CacheRegion::MainProbation, DeqNode, Deque};
